@@ -54,6 +54,15 @@ impl<'a> Gen<'a> {
         }
     }
 
+    /// `[e]` with padding where `[[`/`]]` would otherwise start or end a long bracket
+    fn bracket(&mut self, e: String) -> String {
+        if e.starts_with('[') || e.ends_with(']') {
+            format!("[ {e} ]")
+        } else {
+            format!("[{}{e}{}]", self.ows(), self.ows())
+        }
+    }
+
     fn number(&mut self) -> String {
         self.rng.pick(&["0", "1", "42", "3.14", "0x1F", "1e10", "0xA.8p1", "7", "100", ".5"]).to_string()
     }
@@ -126,7 +135,10 @@ impl<'a> Gen<'a> {
                 2 => self.rng.pick(&["nil", "true", "false"]).to_string(),
                 3 | 4 => self.name(),
                 5 => format!("{}.{}", self.name(), self.rng.pick(FIELDS)),
-                6 => format!("{}[{}{}{}]", self.name(), self.ows(), self.expr(), self.ows()),
+                6 => {
+                    let e = self.expr();
+                    format!("{}{}", self.name(), self.bracket(e))
+                }
                 7 => {
                     let op = *self.rng.pick(BINOPS);
                     format!("{} {} {}", self.expr(), op, self.expr())
@@ -186,7 +198,10 @@ impl<'a> Gen<'a> {
         for _ in 0..n {
             let item = match self.rng.below(4) {
                 0 => format!("{} = {}", self.rng.pick(FIELDS), self.expr()),
-                1 => format!("[{}] = {}", self.expr(), self.expr()),
+                1 => {
+                    let k = self.expr();
+                    format!("{} = {}", self.bracket(k), self.expr())
+                }
                 _ => self.expr(),
             };
             items.push(item);
@@ -243,7 +258,8 @@ impl<'a> Gen<'a> {
                 let n = self.name();
                 let attr = if self.rng.chance(1, 12) { " <const>" } else { "" };
                 let doc = if self.docs && self.rng.chance(1, 5) { format!("{ind}---@type {}\n", self.doc_type(0)) } else { String::new() };
-                format!("{doc}{ind}local {n}{attr}{}={}{}{semi}{trail}\n", self.ws(), self.ws(), self.expr())
+                let w1 = if attr.is_empty() { self.ws() } else { " " };
+                format!("{doc}{ind}local {n}{attr}{w1}={}{}{semi}{trail}\n", self.ws(), self.expr())
             }
             2 => format!("{ind}local {}, {} = {}, {}{trail}\n", self.name(), self.name(), self.expr(), self.expr()),
             3 => format!("{ind}{}{}={}{}{semi}{trail}\n", self.name(), self.ws(), self.ws(), self.expr()),
